@@ -269,7 +269,8 @@ def generate(rng, tier):
     # interleave so that the in-Coq sample (first 150 cases with a term) sees every operator
     head = [c for c in cases[1:]]
     rng.shuffle(head)
-    return [cases[0]] + head
+    import extra_cases          # API-audit additions (docs/API_COVERAGE.md); produced after the original cases
+    return [cases[0]] + head + extra_cases.c10(rng, tier)
 
 def nontrivial(case):
     toks = case.split(" ")
